@@ -498,10 +498,11 @@ class offsets_in_query_order:
     """result[i] is the ms position of the i-th query (any order, duplicates allowed): offset of the active
     change + beat distance at its tempo.  bpm_changes_snap() is used through its contract."""
 
-    max_paths = 6000
+    max_paths = 30000
     explore_s = 300
-    args_thorough = dict(self=Choice([TmT(n) for n in (1, 2, 3)]), snaps=Choice([ListT(SnapT(), m) for m in (1, 2, 3)]))
-    assumes = ["shape-bounded: 1..2 (thorough: 3) tempo changes x 1..2 (thorough: 3) queries, all values symbolic; arbitrary query count by offsets_sweep_step + argsort un-permutation (A2)"]
+    args_thorough = dict(self=Choice([TmT(n) for n in (1, 2, 3)]), snaps=Choice([ListT(SnapT(), m) for m in (1, 2)]))
+    explore_s_thorough = 3000
+    assumes = ["shape-bounded: 1..2 (thorough: 3) tempo changes x 1..2 queries, all values symbolic; arbitrary query count by offsets_sweep_step + argsort un-permutation (A2)"]
 
     def requires(self, snaps):
         b = self.bpm_changes_offset
